@@ -127,7 +127,7 @@ def gen_cases(rng, n):
             pts = [tuple(x + off for x in v) for v in pts]
             cases.append((tuple(pts), "lattice", None))
             continue
-        size = 10 ** rng.uniform(-6, 2)
+        size = 10 ** rng.uniform(-6, 2) if rng.random() < 0.8 else 10 ** rng.uniform(-11, -6)     # also far below any mesh resolution: the kernel has no absolute scale
         aspect = 10 ** rng.uniform(0, 3) if rng.random() < 0.3 else 1.0
         a0 = (0.0, 0.0, 0.0)
         b0 = (size * aspect, 0.0, 0.0)
